@@ -237,6 +237,7 @@ func runSoftColCase(c cCase) (ev cEvent) {
 }
 
 func softColMain(args []string) {
+	timeStrict = true // values stay in memory: a time comes back with its zone offset
 	fs := flag.NewFlagSet("softcol", flag.ExitOnError)
 	gen := fs.String("gen", "", "TLC generation output")
 	out := fs.String("out", "", "output directory")
